@@ -108,7 +108,7 @@ class World:
             "jwe-all": JWERegistry(algorithms=list(rjwe.RFC_ALGS) + list(rjwe.RFC_ENCS) + ["DEF"]),
             "jwe-any": JWERegistry(algorithms=list(rjwe.RFC_ALGS) + list(rjwe.RFC_ENCS) + ["DEF"], verify_all_recipients=False),
         }
-        from joserfc.jwk import KeySet
+        from joserfc.jwk import KeySet, OctKey
         # key sets shared between calls (their keys carry explicit kids, so building them here assigns nothing lazily)
         self.sets = {
             "priv": KeySet([self.k["ec2"], self.k["oct16"]]),
@@ -194,7 +194,7 @@ def prepare_inputs(w: World, label: str = "") -> None:
 
 def _ops():
     from joserfc import jws, jwe, jwt, rfc7797
-    from joserfc.jwk import KeySet
+    from joserfc.jwk import KeySet, OctKey
     from joserfc.jwt import JWTClaimsRegistry
     O = {}
 
@@ -363,6 +363,14 @@ def _ops():
     cons("dec-multi-set", lambda w: jwe.decrypt_json(w.inputs["multi"], KeySet([w.k["oct16"], w.k["ec2"]])).plaintext)
     cons("dec-multi-any", lambda w: jwe.decrypt_json(w.inputs["multi"], w.k["oct16"], registry=w.reg["jwe-any"]).plaintext)
     cons("dec-pbes2", lambda w: jwe.decrypt_compact(w.inputs["pbes2"], w.k["oct"], registry=w.reg["jwe-all"]).plaintext)
+    # the same tokens offered with a key that is not theirs: refused alone, and refused after (or beside) the call with the right key
+    cons("dec-pbes2-wrong-password", lambda w: jwe.decrypt_compact(w.inputs["pbes2"], w.k["oct16"], registry=w.reg["jwe-all"]).plaintext)
+    cons("dec-kw-wrong-key", lambda w: jwe.decrypt_compact(w.inputs["kw"], OctKey.import_key(b"another-16-octet")).plaintext)
+    cons("dec-gcmkw-wrong-key", lambda w: jwe.decrypt_compact(w.inputs["gcmkw"], OctKey.import_key(b"another-16-octet"), registry=w.reg["jwe-all"]).plaintext)
+    cons("dec-dir-wrong-key", lambda w: jwe.decrypt_compact(w.inputs["dir"], OctKey.import_key(b"another-32-octet-key-for-dir-...")).plaintext)
+    cons("dec-ecdh-wrong-key", lambda w: jwe.decrypt_compact(w.inputs["ecdh"], w.k["ec2"]).plaintext)
+    cons("verify-hs-wrong-key", lambda w: jws.deserialize_compact(w.inputs["hs"], w.k["oct16"]).payload)
+    cons("verify-es-wrong-key", lambda w: jws.deserialize_compact(w.inputs["es"], w.p["ec2"]).payload)
     cons("dec-gcmkw", lambda w: jwe.decrypt_compact(w.inputs["gcmkw"], w.k["oct16"], registry=w.reg["jwe-all"]).plaintext)
     cons("dec-1pu", lambda w: jwe.decrypt_compact(w.inputs["1pu"], w.k["ec"], registry=w.reg_1pu, sender_key=w.p["ec2"]).plaintext)
     cons("dec-1pu-from-a", lambda w: jwe.decrypt_compact(w.inputs["1pu-from-a"], w.k["ec"], registry=w.reg_1pu, sender_key=w.p["peerA"]).plaintext)
@@ -461,6 +469,10 @@ def canon(w: World, name: str, kind: str, result) -> tuple:
     """what must be equal between the concurrent and the isolated execution"""
     status, val = result
     if status == "exc":
+        if isinstance(val, (NameError, ImportError, SyntaxError)):
+            # a broken operation of the catalogue is the harness' fault and must not pass for a rejection
+            from ..core import HarnessError
+            raise HarnessError("operation %s of the catalogue is broken: %s: %s" % (name, type(val).__name__, val))
         return ("exc", type(val).__name__)
     if kind in ("jws", "jws-set", "jws-7797", "jwt"):
         parts = val.split(".")
